@@ -106,6 +106,7 @@ PropC12(e) ==
        /\ e.list2 = o(v \/ el) /\ e.dup = "refused" /\ e.twoell = o(v)
        \* no name occurs twice anywhere in a tree, however the tree comes about
        /\ e.dupsib = "refused" /\ e.dupcousin = "refused" /\ e.duprename = "refused" /\ e.dupinsert = "refused"
+       /\ e.dupnest = "refused" /\ e.dupnestfill = "refused"        \* (repeat markers included)
        /\ e.dupsameU = "refused" /\ e.dupsameI = "refused" /\ e.dupsameF = "refused" /\ e.dupsameB = "refused" /\ e.dupsameT = "refused"
   /\ e.ev = "ctorbounds" =>
        LET lo == e.lo  hi == e.hi
